@@ -71,7 +71,9 @@ pub fn eval(c: &Case, rep: &mut Report) -> Option<(Value, String)> {
     };
     let model = c.p.model();
     rep.transitions += 2 + 3 * model.files.len() as u64;
-    let got = guard(|| prog::read_all(&bytes, &c.keys));
+    // unencrypted archives: every other case opens with the convenience constructor (no configuration)
+    let keys: Vec<usize> = if !c.cfg.layers.encrypted() && c.p.ops.len() % 2 == 0 { Vec::new() } else { c.keys.clone() };
+    let got = guard(|| prog::read_all(&bytes, &keys));
     infra::watch_idle();
     let chunks = bytes.len() / (CHUNK + TAG);
     rep.class(&format!("{}/chunks={}", c.cfg.layers.tag(), chunks.min(12)));
